@@ -431,6 +431,53 @@ def gen_history(rng, n, cfgs, with_regen):
     return ops
 
 
+CACHE_ATTRS = ("GFvalues", "Lvvvalues", "etavvalues")
+SUBOBJECTS = ("kinetic", "thermo", "NNstar", "GFstarset", "vkinetic", "GFcalc", "crys")
+
+
+def _digest(x, depth=0):
+    """structural fingerprint of data: arrays by shape/dtype/bytes, containers element-wise"""
+    import hashlib
+    if isinstance(x, np.ndarray):
+        return ("nd", x.shape, str(x.dtype), hashlib.sha1(np.ascontiguousarray(x).tobytes()).hexdigest())
+    if isinstance(x, (list, tuple)):
+        return (type(x).__name__,) + tuple(_digest(y, depth + 1) for y in x) if depth < 6 else ("deep",)
+    if isinstance(x, dict):
+        try:
+            return ("dict",) + tuple((repr(k)[:80], _digest(v, depth + 1)) for k, v in x.items())
+        except Exception:
+            return ("dict?",)
+    if isinstance(x, (int, float, complex, str, bytes, bool, type(None), np.number)):
+        return ("v", repr(x))
+    if isinstance(x, (set, frozenset)):
+        return ("set", len(x))
+    return None      # other objects: not data
+
+
+def state_snapshot(d):
+    """every data attribute of the calculator and, one level down, of its star sets / vector star set / GF calculator /
+    crystal -- except the documented cache dictionaries"""
+    snap = {}
+    for k, v in vars(d).items():
+        if k in CACHE_ATTRS: continue
+        if k in SUBOBJECTS and hasattr(v, "__dict__"):
+            for k2, v2 in vars(v).items():
+                dg = _digest(v2)
+                if dg is not None: snap["%s.%s" % (k, k2)] = dg
+        else:
+            dg = _digest(v)
+            if dg is not None: snap[k] = dg
+    return snap
+
+
+def state_changes(d, snap):
+    """attributes present in the snapshot whose data differ now (attributes created later, e.g. by SetRates, are allowed;
+    the GF calculator's per-SetRates results are listed as its documented working state)"""
+    now = state_snapshot(d)
+    GF_WORKING = ("GFcalc.D", "GFcalc.eta")     # None / 0 before the first SetRates
+    return sorted(k for k, v in snap.items() if k not in GF_WORKING and now.get(k) != v)
+
+
 def aliasing_violations(d, held):
     """(b) after an Lij: no two distinct cache entries share memory; at most one entry per slot is the GF calculator's
     current D / eta object; no array ever returned to the caller shares memory with a cache entry or with D / eta"""
@@ -455,9 +502,11 @@ def aliasing_violations(d, held):
     return bad
 
 
-def run_history(pool, cfgs, ops, tag, alias_log=None):
+def run_history(pool, cfgs, ops, tag, alias_log=None, state_log=None):
     """-> (verdicts per Lij [4 bools], worst diff, events, exception or None)"""
     d = pool.fresh(cfgs[0])
+    snap = state_snapshot(d) if state_log is not None else None
+    gfset = False
     cur = 0
     held = []
     verdicts, info = [], []
@@ -486,6 +535,13 @@ def run_history(pool, cfgs, ops, tag, alias_log=None):
                 held.append(res)
                 if alias_log is not None:
                     for msg in aliasing_violations(d, held)[:3]: alias_log.append((n, msg))
+                if state_log is not None:
+                    if not gfset:
+                        # the first SetRates creates the GF calculator's working arrays: take their snapshot... they are rebuilt by
+                        # every SetRates, so only attributes that existed at construction are frozen
+                        gfset = True
+                    ch = state_changes(d, snap)
+                    if ch: state_log.append((n, ch[:8])); snap = state_snapshot(d)
             elif o[0] == "mutate":
                 arr = held[o[1]][o[2]]
                 if o[3] == "fill": arr[...] = 7.0
@@ -498,8 +554,10 @@ def run_history(pool, cfgs, ops, tag, alias_log=None):
                 if N != d.Nthermo: regenerate(d, N)
                 if ngf != d.NGFmax: d.GFcalc = d.GFcalculator(ngf)
                 cur = o[1]
+                if state_log is not None: snap = state_snapshot(d)
             elif o[0] == "saveload":
                 d = saveload(d, tag)
+                if state_log is not None: snap = state_snapshot(d)
         except Exception as e:   # an exception of the implementation inside the property's domain
             return verdicts, worst, info, (n, o, repr(e))
     return verdicts, worst, info, None
@@ -555,7 +613,12 @@ def run(ck):
     # rect, sq2w (2 shells), rect-polar2d, oblique2d have >= 2 omega0 jump types: different inputs change the RATIO of the bare
     # rates, so anything the GF calculator keeps from an earlier SetRates shows up against a fresh calculator
     pools = {nm: Pool(nm, ck.nprng(i), min_types=mt) for i, (nm, mt) in enumerate(
-        [("square", 1), ("honeycomb", 1), ("rect-polar2d", 2), ("oblique2d", 2), ("rect", 2), ("sq2w", 2)])}
+        [("square", 1), ("honeycomb", 1), ("rect-polar2d", 2), ("oblique2d", 2), ("rect", 2), ("sq2w", 2), ("polar3w2d", 1), ("pg4", 1)])}
+    # polar3w2d, pg4: non-empty origin-state vector basis AND several Wyckoff sets; the inputs give every Wyckoff set its own
+    # vacancy and solute site energy (non-uniform probV, probS)
+    ck.extra["wyckoff_sets"] = {nm: len(p.sl) for nm, p in pools.items()}
+    if not any(len(p.sl) >= 2 and len(p.fresh((1, 4)).OSindices) > 0 for p in pools.values()):
+        raise RuntimeError("history pool lacks a crystal with origin states and several Wyckoff sets")
     ck.extra["omega0_jump_types"] = {nm: len(p.jn) for nm, p in pools.items()}
     if sum(1 for p in pools.values() if len(p.jn) >= 2) < 3: raise RuntimeError("history pool lacks crystals with several omega0 jump types")
     dyn, dyn_sm = None, None
@@ -629,8 +692,15 @@ def run(ck):
             alog = []
             seq = [(0, 0), (1, 0), (0, 0), (2, 1), (1, 1), (0, 1), (2, 0)]
             held = []
+            snap0 = state_snapshot(d)
             for step, kid in enumerate(seq):
                 res = d.Lij(*pool.input((N, 4), kid)); held.append(res)
+                ch = state_changes(d, snap0)
+                if ch:
+                    V("Lij changes the calculator's own data: attribute(s) %s differ from their value after construction (call %d)" % (ch[:6], step),
+                      {"calculator": nm, "crystal": repr(pool.crys), "cutoff": pool.cut, "Nthermo": N, "sequence(vTK id, other id)": seq[:step + 1],
+                       "changed_attributes": ch, "input": [x.tolist() for x in pool.input((N, 4), kid)]}, key="c14-lij-mutates-calculator-state")
+                    snap0 = state_snapshot(d)
                 ref = pool.reference((N, 4), kid)
                 diffs = [float(np.abs(np.asarray(x) - y).max()) for x, y in zip(res, ref)]
                 for msg in aliasing_violations(d, held)[:2]: alog.append((step, msg))
@@ -736,8 +806,11 @@ def run(ck):
         nm = rng.choice(list(pools))
         with_regen = (h % 2 == 0)
         ops = gen_history(rng, rng.randint(6, ck.n(16, 30)), cfgs, with_regen)
-        alog = []
-        verd, w, info, exc = run_history(pools[nm], cfgs, ops, "%s%d" % (nm, h), alias_log=alog)
+        alog, slog = [], []
+        verd, w, info, exc = run_history(pools[nm], cfgs, ops, "%s%d" % (nm, h), alias_log=alog, state_log=slog)
+        if slog:
+            V("Lij changes the calculator's own data: attribute(s) %s differ from their value before the call (operation %d of a history)" % (slog[0][1], slog[0][0]),
+              {"calculator": nm, "ops": [" ".join(map(str, o)) for o in ops], "events": slog[:6]}, key="c14-lij-mutates-calculator-state")
         worst = max(worst, w)
         if alog and applies == "C14_history":
             V("cache entries alias each other / the GF calculator's buffers / returned arrays: %s" % alog[0][1],
